@@ -210,8 +210,14 @@ func (i *Interpreter) pushLoadedFragment(pathset string, units []parse.SourceUni
 	}
 	i.pushSourceFragment(pathset, units, programInfo)
 
+	if err := i.evalProgram(programInfo); err != nil {
+		// The fragment is rejected: take it, and whatever part of it was
+		// evaluated, off the stack again.
+		i.popSourceFragment()
+		return err
+	}
 	fmt.Fprintf(i.out, "loaded %s.\n", pathset)
-	return i.evalProgram(programInfo)
+	return nil
 }
 
 // ParseQuery parses a query string. It can either be a predicate name,
